@@ -61,6 +61,23 @@ Q2,0.5,QUERY,op1,,1.5,const,,2
 """)
 
 
+# two features in sequence on ONE pipeline: a batch container is preempted for a query at its operator boundary, resumed,
+# and the resumed work is then OOM-killed (6 GB on a 4 GB pool) and retried until given up; a second query arrives later.
+# Anything a scheduler remembers about "pipelines that were preempted and then failed" outside its own instance shows up
+# as a different second run in the same interpreter
+CONFIGS["priority-preempt-then-oom"] = dict(
+    duration=6, ticks_per_second=10, scheduler_algo="priority", num_pools=1, cpus_per_pool=1, ram_gb_per_pool=4, multi_operator_containers=True,
+    _csv="""pipeline_id,arrival_seconds,priority,operator_id,parents,baseline_cpu_seconds,cpu_scaling,memory_gb,storage_read_gb
+p1,0.0,BATCH_PIPELINE,op1,,1,const,1,0
+p1,,,op2,op1,1,const,6,0
+p2,0.5,QUERY,op1,,0.5,const,1,0
+p3,0.0,BATCH_PIPELINE,op1,,0.5,const,1,0
+p3,,,op2,op1,0.5,const,1,0
+p3,,,op3,op2,0.5,const,1,0
+p4,3.0,QUERY,op1,,0.5,const,1,0
+""")
+
+
 # an external policy over the REST bridge that packs operators of THREE pipelines into one container and then lets the
 # reported pipeline id of running containers decide which pipeline is served next: whatever the bridge reports for such
 # a container has to be the same in every process
